@@ -3,7 +3,7 @@ use crate::events::CircuitBreakerEvent;
 #[cfg(feature = "metrics")]
 use metrics::{counter, gauge, histogram};
 use std::collections::VecDeque;
-use std::sync::atomic::{AtomicU8, Ordering};
+use std::sync::atomic::{AtomicU8, AtomicUsize, Ordering};
 use std::time::{Duration, Instant};
 
 /// Represents the state of the circuit breaker.
@@ -64,6 +64,17 @@ struct CallRecord {
     is_slow: bool,
 }
 
+/// Marks a half-open trial call as in flight until its outcome is recorded or the
+/// call is abandoned (dropped or unwound), so that concurrent callers cannot exceed
+/// `permitted_calls_in_half_open`.
+pub(crate) struct HalfOpenPermit(std::sync::Arc<AtomicUsize>);
+
+impl Drop for HalfOpenPermit {
+    fn drop(&mut self) {
+        self.0.fetch_sub(1, Ordering::AcqRel);
+    }
+}
+
 pub(crate) struct Circuit {
     state: CircuitState,
     state_atomic: std::sync::Arc<AtomicU8>,
@@ -73,6 +84,9 @@ pub(crate) struct Circuit {
     success_count: usize,
     total_count: usize,
     slow_call_count: usize,
+    // Half-open trial calls: recorded since entering half-open / admitted and still running
+    half_open_completed: usize,
+    half_open_in_flight: std::sync::Arc<AtomicUsize>,
     // Outcomes (is_failure, is_slow) of the last `sliding_window_size` calls
     count_window: VecDeque<(bool, bool)>,
     window_failure_count: usize,
@@ -104,6 +118,8 @@ impl Circuit {
             success_count: 0,
             total_count: 0,
             slow_call_count: 0,
+            half_open_completed: 0,
+            half_open_in_flight: std::sync::Arc::new(AtomicUsize::new(0)),
             count_window: VecDeque::new(),
             window_failure_count: 0,
             window_slow_call_count: 0,
@@ -283,6 +299,7 @@ impl Circuit {
 
         match self.state {
             CircuitState::HalfOpen => {
+                self.half_open_completed += 1;
                 let success_count = match config.sliding_window_type {
                     SlidingWindowType::CountBased => self.success_count,
                     SlidingWindowType::TimeBased => self.time_based_stats().2,
@@ -363,12 +380,28 @@ impl Circuit {
 
         match self.state {
             CircuitState::HalfOpen => {
+                self.half_open_completed += 1;
                 self.transition_to(CircuitState::Open, config);
             }
             _ => {
                 self.evaluate_window(config);
             }
         }
+    }
+
+    /// Decides admission like [`Circuit::try_acquire`] and, for a call admitted while
+    /// half-open, also hands out the permit that keeps it counted as a running trial.
+    /// The caller holds the permit until it records the outcome (or drops the call).
+    pub(crate) fn acquire<C>(
+        &mut self,
+        config: &CircuitBreakerConfig<C>,
+    ) -> (bool, Option<HalfOpenPermit>) {
+        let permitted = self.try_acquire(config);
+        let permit = (permitted && self.state == CircuitState::HalfOpen).then(|| {
+            self.half_open_in_flight.fetch_add(1, Ordering::AcqRel);
+            HalfOpenPermit(std::sync::Arc::clone(&self.half_open_in_flight))
+        });
+        (permitted, permit)
     }
 
     pub fn try_acquire<C>(&mut self, config: &CircuitBreakerConfig<C>) -> bool {
@@ -405,8 +438,10 @@ impl Circuit {
                 }
             }
             CircuitState::HalfOpen => {
-                let permitted =
-                    self.success_count + self.failure_count < config.permitted_calls_in_half_open;
+                // Trials still running count as well as those already recorded
+                let permitted = self.half_open_completed
+                    + self.half_open_in_flight.load(Ordering::Acquire)
+                    < config.permitted_calls_in_half_open;
                 if permitted {
                     config
                         .event_listeners
@@ -447,6 +482,7 @@ impl Circuit {
         self.failure_count = 0;
         self.total_count = 0;
         self.slow_call_count = 0;
+        self.half_open_completed = 0;
         self.count_window.clear();
         self.window_failure_count = 0;
         self.window_slow_call_count = 0;
